@@ -208,7 +208,7 @@ func (fr *Frame) enterLoop(h *ssa.BasicBlock, st *State, phiIn func(*ssa.Phi) *V
 		g := fr.evalBool(inv, env, st, fr.entry)
 		u.oblige(fr, st, "inv-init", fmt.Sprintf("loop%d.%d", ord, i+1), g, token.NoPos, "loop invariant holds on entry: "+inv.src)
 	}
-	for i, ai := range fr.autoInvariants(h, phis, func(p *ssa.Phi) *Val { return entryVals[p] }) {
+	for i, ai := range fr.autoInvariants(h, phis, func(p *ssa.Phi) *Val { return entryVals[p] }, st) {
 		u.oblige(fr, st, "inv-auto", fmt.Sprintf("init.loop%d.%d", ord, i+1), ai, token.NoPos, "automatic loop invariant holds on entry")
 	}
 	// 3. havoc
@@ -284,7 +284,7 @@ func (fr *Frame) enterLoop(h *ssa.BasicBlock, st *State, phiIn func(*ssa.Phi) *V
 	for _, inv := range invs {
 		u.fact(implies(st.pc, fr.evalBool(inv, env2, st, fr.entry)))
 	}
-	for _, ai := range fr.autoInvariants(h, phis, func(p *ssa.Phi) *Val { return fr.vals[p] }) {
+	for _, ai := range fr.autoInvariants(h, phis, func(p *ssa.Phi) *Val { return fr.vals[p] }, st) {
 		u.fact(implies(st.pc, ai))
 	}
 }
@@ -311,14 +311,21 @@ func (fr *Frame) closeLoop(from, h *ssa.BasicBlock, st *State) {
 			phis = append(phis, p)
 		}
 	}
-	for i, ai := range fr.autoInvariants(h, phis, back) {
+	for i, ai := range fr.autoInvariants(h, phis, back, st) {
 		u.oblige(fr, st, "inv-auto", fmt.Sprintf("loop%d.%d", ord, i+1), ai, token.NoPos, "automatic loop invariant preserved")
 	}
 }
 
 // autoInvariants: bounds of range-index variables and counters that only grow from a constant.
-func (fr *Frame) autoInvariants(h *ssa.BasicBlock, phis []*ssa.Phi, pv func(*ssa.Phi) *Val) []string {
+func (fr *Frame) autoInvariants(h *ssa.BasicBlock, phis []*ssa.Phi, pv func(*ssa.Phi) *Val, st *State) []string {
 	var out []string
+	// a loop over a reflect map iterator created before it: the position never drops below -1
+	if itv := fr.mapIterOfLoop(h); itv != nil && st != nil {
+		if iv, ok := fr.vals[itv]; ok && iv.K == vTerm {
+			fr.u.ghostSort["miter_pos"] = "(Array Ref Int)"
+			out = append(out, fmt.Sprintf("(>= (select %s %s) (- 1))", fr.u.ghostOf(st, "miter_pos"), iv.T))
+		}
+	}
 	for _, p := range phis {
 		if _, isSlice := p.Type().Underlying().(*types.Slice); isSlice && !fr.u.checkFrame {
 			// a slice that is only grown by append: its backing array is the one it had on entry of the loop
